@@ -124,8 +124,14 @@ def scenario(sid, case, gate=None, timeout="5s", gap_ms=0, pad=False, taskhook=N
                       {"do": "destroy", "env": "e1", "force": True, "caller": "D"}, {"do": "settle", "ms": 80},
                       {"do": "ungate", "point": "probe:G"}, {"do": "await", "caller": "A%d" % i}, {"do": "await", "caller": "D"}]
         elif gate:
+            # hooks of one (moment, weight) are started together: while the gated one is held its companion runs
+            together = []
+            hs = {h["id"]: h for h in case["hooks"]}
+            if gate == "h1" and "h2" in hs and (hs["h1"]["tm"], hs["h1"]["tw"]) == (hs["h2"]["tm"], hs["h2"]["tw"]) \
+                    and ev == {"START_ACTIVITY": "START_ACTIVITY", "STOP_ACTIVITY": "STOP_ACTIVITY"}.get(hs["h1"]["tm"].split("_", 1)[1] if hs["h1"]["tm"].startswith(("before_", "after_")) else "", "START_ACTIVITY" if hs["h1"]["tm"] in ("leave_CONFIGURED", "enter_RUNNING") else "STOP_ACTIVITY"):
+                together = [{"do": "waithook", "hook": "h2", "timeout_ms": 3000}]
             steps += [{"do": "control", "env": "e1", "op": ev, "caller": "A%d" % i},
-                      {"do": "waitgate", "point": "probe:G", "timeout_ms": 250}, {"do": "settle", "ms": 60},
+                      {"do": "waitgate", "point": "probe:G", "timeout_ms": 800}] + together + [{"do": "settle", "ms": 60},
                       {"do": "ungate", "point": "probe:G"}, {"do": "await", "caller": "A%d" % i}]
         else:
             steps.append({"do": "control", "env": "e1", "op": ev})
@@ -187,6 +193,8 @@ def project(lines):
                 out.append({"ev": "Step", "scn": scn, "tx": ln["tx"], "m": step, "k": k,
                             "phase": "start" if ln["msg"].endswith("starting") else "end", "err": ln["err"],
                             "named": sorted(set(re.findall(r"hook (h[0-9]+)", ln.get("errtext", ""))))})
+            elif ev == "HookSeen":
+                out.append({"ev": "HookSeen", "scn": scn, "hook": ln["hook"], "ok": bool(ln["ok"])})
             elif ev == "HookStart" and ln.get("env") == "e1":
                 mt = re.match(r"(.*?)([+-][0-9]+)?$", ln["trig"])
                 g = lambda f: rank[int(ln[f])] if ln.get(f) else 0
@@ -250,8 +258,11 @@ def run_family(ctx, pid):
     def watched_stop(c):
         h1, h2 = (next(h for h in c["hooks"] if h["id"] == i) for i in ("h1", "h2"))
         return (h1["tm"], h1["tw"], h2["tm"], h2["tw"]) == ("after_STOP_ACTIVITY", -1, "after_STOP_ACTIVITY", 0)
-    eos = [c for c in cases if c.get("quiet") or watched_stop(c)]
-    cases = [c for c in cases if not (c.get("quiet") or watched_stop(c))]
+    def enter_halves(c):
+        h1, h2 = (next(h for h in c["hooks"] if h["id"] == i) for i in ("h1", "h2"))
+        return (h1["tm"], h1["tw"], h2["am"], h2["aw"]) == ("enter_RUNNING", -1, "enter_RUNNING", 0)
+    eos = [c for c in cases if c.get("quiet") or watched_stop(c) or enter_halves(c)]
+    cases = [c for c in cases if not (c.get("quiet") or watched_stop(c) or enter_halves(c))]
     interesting = [c for c in cases if any(h["fails"] or (h["tm"], h["tw"]) != (h["am"], h["aw"]) for h in c["hooks"]) or c["bodyfails"]]
     # the "two hooks meeting in one moment" catalogue (Cfg3Valid: h2 may be non-critical) is replayed completely
     def is_meet(c):
@@ -365,7 +376,8 @@ def run_family(ctx, pid):
         scenarios.append(scenario(sid, c))
     # ... with the cancelling hook as a hook TASK that hangs when the core asks from inside (hook timeout: STOP cancelled), whose
     # process ends a little later, and that exits 1 when the STOP is asked for again through the API
-    for c in [x for x in eos if not any(h["once"] for h in x["hooks"]) and not any(h["fails"] for h in x["hooks"] if h["id"] == "h1")][:(3 if quick else 12)]:
+    for c in [x for x in eos if x.get("quiet") and not watched_stop(x) and not any(h["once"] for h in x["hooks"])
+              and not any(h["fails"] for h in x["hooks"] if h["id"] == "h1")][:(3 if quick else 12)]:
         sid += 1
         ntask += 1
         scenarios.append(scenario(sid, c, taskhook=("exit1", "ok"), task_ids=("h2",), late_then=(1400, "exit1")))
